@@ -62,6 +62,13 @@ def call(eng, node, st):
         cb = _count_below_shape(eng, node.args[0], st)
         if cb is not None:
             return cb
+    if name == "sum" and len(node.args) == 1 and not node.keywords and not eng.concrete and isinstance(node.args[0], ast.ListComp) and len(node.args[0].generators) == 1:
+        # sum([...]) of a temporary list: the list is consumed at once, so it is summed as the immutable sequence it is
+        # when created (keeps the filter structure for the FILTER-SUM rule)
+        tmp_seq = eng.comprehension(node.args[0].elt, node.args[0].generators, st, "list")
+        if isinstance(tmp_seq, SeqV):
+            return b_sum(eng, st, [tmp_seq], {})
+        return b_sum(eng, st, [tmp_seq], {})
     if name in ("all", "any") and len(node.args) == 1 and isinstance(node.args[0], (ast.GeneratorExp, ast.ListComp)):
         return quant_genexp(eng, node.args[0], st, name == "all")
     if name == "type" and len(node.args) == 1 and not node.keywords:
